@@ -224,6 +224,9 @@ func (x *Exec) assertion(c *Term, msg string) {
 	}
 	neg := x.tc.BNot(c)
 	r, m := x.check(neg, x.eng.cfg.AssertTimeoutMs, x.modelVars())
+	if r != Unknown {
+		x.crossCheck(neg, r, msg)
+	}
 	switch r {
 	case Unsat:
 		x.res.Asserts++
@@ -250,4 +253,29 @@ func redirectKey(fn *ssa.Function) string {
 	s := fn.String()
 	s = strings.NewReplacer("(*", "", "(", "", ")", "", ".", "_", "/", "_").Replace(s)
 	return "verifModel_" + s
+}
+
+// crossCheck re-decides PC ∧ neg on the other installed solvers; a
+// disagreement makes the run inconclusive.
+func (x *Exec) crossCheck(neg *Term, primary SatResult, msg string) {
+	v, ok := x.eng.crossTL.Load(x.solver)
+	if !ok {
+		return
+	}
+	for _, cs := range v.([]*Solver) {
+		cs.Reset()
+		for _, t := range x.pcTerms {
+			cs.Assert(t)
+		}
+		r, _, err := cs.Check(neg, x.eng.cfg.AssertTimeoutMs, nil)
+		if err != nil || r == Unknown {
+			x.res.CrossUnknown++
+			continue
+		}
+		x.res.CrossChecked++
+		if r != primary {
+			x.res.Unknowns = append(x.res.Unknowns, fmt.Sprintf("solver disagreement on %q: %s says %s, %s says %s", msg, x.solver.name, primary, cs.name, r))
+			x.end("inconclusive", "solver disagreement: "+msg)
+		}
+	}
 }
